@@ -62,6 +62,11 @@ CHECKS.update({
         text="A sender and a receiver task exchange messages through litep2p's framed Substream wrapped around a real yamux stream pair whose two connections are driven by their own tasks on a simulated carrier (seeded fragmentation, short writes, Pending, bounded window) under the seeded scheduler. Codecs: fixed-size frames below, at and above 1024 bytes; varint with small, large and no sender-side maximum. Messages of 0, 1, max-1, max, max+1 bytes, larger than the 64 KiB back-pressure boundary and the 256 KiB flow-control window; APIs Sink send, feed+flush, send_framed; receiver stalls; malformed raw length prefixes. Reference model: FIFO of messages. Oracle: received sequence equals the sequence handed over; illegal sizes are refused at the sender; a legal send never fails; every message whose send/flush returned Ok is obtained by the receiver although the sender never polls again; malformed prefixes end the stream without panic or oversize message.", ref="DESIGN.md §5 C04"),
 })
 
+CHECKS.update({
+    "C03": dict(engine="bytepipe", technique="deterministic simulation: real multistream-select dialer/listener tasks over a simulated carrier, differential against rust-libp2p's multistream-select, message-variant groupings",
+        text="A dialer task (dialer_select_proto, V1 or V1Lazy) and a listener task (listener_select_proto) run over a simulated carrier with seeded fragmentation down to single bytes, short writes and Pending under the seeded scheduler, each immediately followed by application traffic; differential variants put rust-libp2p's multistream-select 0.13 on either side; the message-based variant drives WebRtcDialerState against webrtc_listener_negotiate with seeded message groupings. Preference lists and listener sets are drawn from a pool built to collide (prefixes of each other, long names). Oracle: both sides terminate; if the sets intersect both report the dialer's most preferred protocol that the listener supports, otherwise both fail; every application byte written after negotiation arrives unchanged and none is consumed by the negotiation, even when the payload looks like negotiation frames.", ref="DESIGN.md §5 C03"),
+})
+
 NOT_BUILT = {
 }
 
